@@ -379,6 +379,15 @@ func (fr *Frame) doCall(c ssa.CallInstruction, st *State, args []Term, recv *Ter
 			fr.obligationOnly(st, c, "nil-arg", callShort(c)+"("+pn+")", fmt.Sprintf("(not (= %s 0))", args[i].S))
 		}
 	}
+	// A library method with a pointer receiver is taken to dereference it (regexp, url.URL, http.Request, … all do): a nil
+	// receiver is a panic inside the library. Obligation of the call site, never assumed afterwards.
+	if ci.fn != nil && !fe.eng.inRepo(ci.fn) && ci.fn.Signature.Recv() != nil && len(args) > 0 && len(ci.bindings) == 0 {
+		if _, isPtr := ci.fn.Signature.Recv().Type().Underlying().(*types.Pointer); isPtr && args[0].K == SInt && !fr.nonNilByConstruction(cc.Args[0]) {
+			if ci.contract == nil || !(ci.contract.Nilable["recv"] || (len(ci.contract.ParamNames) > 0 && ci.contract.Nilable[ci.contract.ParamNames[0]])) {
+				fr.obligationOnly(st, c, "nil-recv", callShort(c), fmt.Sprintf("(not (= %s 0))", args[0].S))
+			}
+		}
+	}
 	if ci.contract != nil {
 		fe.usedContracts[ci.name] = true
 		if ci.fn != nil {
